@@ -44,6 +44,31 @@ fn expect_reject_or_same(ctx: &mut Ctx, forged: &[u8], orig: &Envelope, class: &
     }
 }
 
+/// the same fault, seen through uncompress_subject(): the forged element is the subject of a node
+fn expect_reject_as_subject(ctx: &mut Ctx, forged: &[u8], orig: &Envelope, class: &str) {
+    let Ok(Ok(f)) = trap::guard(|| Envelope::try_from_cbor_data(forged.to_vec())) else { return };
+    if !f.is_compressed() {
+        return;
+    }
+    ctx.eval();
+    ctx.count("faults_as_subject");
+    let outer = f.add_assertion("outer", 1);
+    match trap::guard(|| outer.uncompress_subject()) {
+        Ok(Err(_)) => ctx.count("fault_rejected_at_uncompress_subject"),
+        Ok(Ok(u)) => {
+            let s = u.subject();
+            if !(s.is_identical_to(orig) && gen::root_digest(&u) == gen::root_digest(&outer)) {
+                ctx.violation(
+                    &format!("corrupt-subject-accepted/{}", class),
+                    if s.is_compressed() { "uncompress_subject returned Ok but left the corrupt / mis-declared compressed subject in place" } else { "uncompress_subject returned a different subject for a corrupt / mis-declared compressed subject" },
+                    J::obj(vec![("forged", J::s(hex::encode(forged))), ("original", jhex(orig))]),
+                );
+            }
+        }
+        Err(p) => ctx.violation(&format!("fault-uncompress_subject-panic/{}/{}", class, p.signature()), &format!("{:?}", p), J::s(hex::encode(forged))),
+    }
+}
+
 fn faults(ctx: &mut Ctx, e: &Envelope, comp: &Envelope, rng: &mut crate::rng::Rng, exhaustive: bool) {
     let bytes = env_bytes(comp);
     let item = match spec::parse_item(&bytes) {
@@ -79,6 +104,18 @@ fn faults(ctx: &mut Ctx, e: &Envelope, comp: &Envelope, rng: &mut crate::rng::Rn
     for b in 0..32 {
         expect_reject_or_same(ctx, &mk(crc ^ (1 << b), size, &data, &dig), e, "crc-bitflip");
     }
+    // a handful of the same faults through the subject-only entry point
+    if !data.is_empty() {
+        for _ in 0..4 {
+            let b = rng.below(data.len() * 8);
+            let mut d = data.clone();
+            d[b / 8] ^= 1 << (b % 8);
+            expect_reject_as_subject(ctx, &mk(crc, size, &d, &dig), e, "data-bitflip");
+        }
+        expect_reject_as_subject(ctx, &mk(crc ^ 1, size, &data, &dig), e, "crc-bitflip");
+        expect_reject_as_subject(ctx, &mk(crc, size, &data[..data.len() - 1], &dig), e, "data-truncate");
+    }
+    expect_reject_as_subject(ctx, &mk(crc, size, &data, &Item::Tag(40001, Box::new(Item::Bytes(rng.bytes(32))))), e, "digest-replaced");
     for b in 0..20 {
         expect_reject_or_same(ctx, &mk(crc, size ^ (1 << b), &data, &dig), e, "size-bitflip");
     }
@@ -106,6 +143,7 @@ fn faults(ctx: &mut Ctx, e: &Envelope, comp: &Envelope, rng: &mut crate::rng::Rn
         // Y happens to be the original itself: nothing is mis-declared
     } else if let Ok(f) = Envelope::try_from(forged) {
         expect_reject_or_same(ctx, &env_bytes(&f), e, "misdeclared-content");
+        expect_reject_as_subject(ctx, &env_bytes(&f), e, "misdeclared-content");
     }
     // content that is not an envelope
     let junk = Compressed::from_uncompressed_data(dcbor::CBOR::from("not an envelope").to_cbor_data(), Some(Digest::from_data(gen::root_digest(e))));
